@@ -286,9 +286,10 @@ def _convert_file_to_config(filepath: str = None, variables_dictionary: dict = g
         raise
 
     configs = list()
-    transport_type = "tcp"
 
     for spec in from_config_file["spec"]:
+        transport_type = "tcp"
+
         for application in spec["applications"]:
             vendor_id = application["vendor_id"]
             app_id = application["app_id"]
